@@ -108,7 +108,7 @@ func init() {
 		spec := &mc.Spec{
 			Level: "exploration",
 			Rule: "family 0: every traced path syscall × pointer kind for each path argument (NULL, unmapped, kernel half, odd, short string, 4095/4096/4097/8192 bytes without NUL, string ending exactly at / crossing into a PROT_NONE page) × dirfd encoding × {soft-ban-all, allow-all} policy, one operation per run; " +
-				"family 1: syscall numbers unknown / negative / with the x32 bit / above 2^32, and unreadable or short open_how, every declared open_how size around the field boundaries, open flag words with both access-mode bits / all bits / garbage above bit 31; family 2: a fork+thread program where the main process, the child or the thread is SIGKILLed at the k-th tracer step (every Debug call index); family 3: symbolic-link shapes in the work directory (self loop, 2- and 3-cycles, a cycle entered through a directory link, chains of 39/40/41/64 links, '.'-link nesting, a 4000-byte target) × path syscalls (following, non-following, two-path, exec) × policy, the tracer running in a helper process with a 64 MiB stack cap so that its death is observed. " +
+				"family 1: syscall numbers unknown / negative / with the x32 bit / above 2^32, and unreadable or short open_how, every declared open_how size around the field boundaries, open flag words with both access-mode bits / all bits / garbage above bit 31; family 2: a fork+thread program where the main process, the child or the thread is SIGKILLed at the k-th tracer step (every Debug call index); family 3: symbolic-link shapes in the work directory (self loop, 2- and 3-cycles, a cycle entered through a directory link, chains of 39/40/41/64 links, '.'-link nesting, a 4000-byte target) × path syscalls (following, non-following, two-path, exec) × policy, the tracer running in a helper process with a 64 MiB stack cap so that its death is observed; family 4: pathname pointers whose VALUE lies in the tracing process's own heap (freed span, live object, one past it, unused arena), stack or data segment × 5 path-call shapes × policy, with a complete garbage collection placed (verif point) inside every read of tracee memory, while the request holds that value. " +
 				"Oracle: the result is a verdict about the program, never Runner Error, and the run returns within the horizon. distinct = (case, observed status)",
 			Bound:       map[string]any{"pointer_kinds": ptrs, "dirfds": dirfds, "syscalls": len(c15syscalls)},
 			Assumptions: []string{"kill instants are exhaustive at tracer-step granularity (each Debug call of the tracer loop), not at instruction granularity"},
@@ -119,7 +119,9 @@ func init() {
 		spec.Init = func() error { devnull(); return nil }
 		spec.Fini = cleanupTmp
 		spec.Body = func(x *mc.X) {
-			switch x.Choose(4, "family") {
+			switch x.Choose(5, "family") {
+			case 4:
+				c15gc(x)
 			case 3:
 				c15links(x)
 			case 0:
